@@ -16,6 +16,14 @@ pub assume_specification<T: Default>[ std::mem::take ](v: &mut T) -> (r: T)
     ensures r == *old(v),
 ;
 
+#[verifier::allow(undeclared_external_trait)]
+pub assume_specification<T, F: FnOnce(T) -> bool + core::marker::Destruct>[ Option::<T>::is_some_and ](o: Option<T>, f: F) -> (r: bool)
+    requires o is Some ==> call_requires(f, (o->Some_0,)),
+    ensures
+        o is None ==> !r,
+        o is Some ==> call_ensures(f, (o->Some_0,), r),
+;
+
 /// `slice.iter().any(f)` (rewrite R12): verified loop with the complete contract vstd lacks
 pub fn vx_any<T, F: Fn(&T) -> bool>(v: &[T], f: F) -> (r: bool)
     requires forall|i: int| 0 <= i < v@.len() ==> call_requires(f, (&v@[i],)),
